@@ -1,6 +1,10 @@
 #!/usr/bin/env python3
-"""Applies every seeded change under seeded/*/patch.diff to /repo in turn, runs the checks named for it, undoes it, and
-records in seeded/<id>/meta.json which checks reported a VIOLATION.  /repo must be clean.  Not a registered check."""
+"""Applies every seeded change under seeded/*/patch.diff to a scratch copy of /repo's working tree (outside /repo and /verif,
+removed afterwards), runs the checks named for it against that copy (PYTRAPIC_REPO), and records in seeded/<id>/meta.json
+which checks reported a VIOLATION.  /repo must be clean.  Not a registered check."""
+import os
+import shutil
+import tempfile
 import json
 import subprocess
 import sys
@@ -24,19 +28,22 @@ def main():
         if only and pid not in only:
             continue
         patch = d / "patch.diff"
-        r = sh(["git", "-C", "/repo", "apply", str(patch)])
-        if r.returncode:
-            print(d.name, "patch does not apply:", r.stderr.strip()[:200])
-            continue
+        scratch = Path(tempfile.mkdtemp(prefix="seeded-", dir=os.environ.get("SCRATCH", "/var/tmp")))
         det = {}
         try:
+            for sub in ("src", "test"):
+                shutil.copytree(f"/repo/{sub}", scratch / sub, ignore=shutil.ignore_patterns("__pycache__"))
+            r = sh(["git", "apply", str(patch)], cwd=str(scratch))
+            if r.returncode:
+                print(d.name, "patch does not apply:", r.stderr.strip()[:200])
+                continue
             for c in RUN.get(pid, [pid]):
-                out = sh([str(ROOT / "check"), c, "--tier", "quick"], cwd=str(ROOT))
+                out = sh([str(ROOT / "check"), c, "--tier", "quick"], cwd=str(ROOT), env=dict(os.environ, PYTRAPIC_REPO=str(scratch)))
                 viol = [l for l in out.stdout.splitlines() if l.startswith("VIOLATION")]
                 failed = [l.strip().replace("failed obligation=", "") for l in out.stdout.splitlines() if l.strip().startswith("failed obligation=")]
                 det[c] = {"exit": out.returncode, "violations": len(viol), "obligations": failed[:4], "no_failing_input_found": sum("no-failing-input-found" in l for l in viol)}
         finally:
-            sh(["git", "-C", "/repo", "checkout", "--", "."])
+            shutil.rmtree(scratch, ignore_errors=True)
         meta = json.loads((d / "meta.json").read_text())
         meta["detected_by"] = det
         (d / "meta.json").write_text(json.dumps(meta, indent=1))
